@@ -502,7 +502,7 @@ func neighbours(r *monitor.Run, b *broker.Broker, cs []Case) {
 	defer yield.Observe(nil)
 	stop := make(chan struct{})
 	var wg sync.WaitGroup
-	var refused, dropped int64
+	var refused, dropped, poisoned int64
 	wg.Add(1)
 	go func() { // the flood for the subscribers that drop out
 		defer wg.Done()
@@ -543,6 +543,24 @@ func neighbours(r *monitor.Run, b *broker.Broker, cs []Case) {
 					time.Sleep(time.Duration(2+i%5) * time.Millisecond)
 					ws.Close()
 					atomic.AddInt64(&dropped, 1)
+					continue
+				}
+				if (i+g)%5 == 1 {
+					// one WebSocket message of 3 KiB whose second packet is malformed (PUBLISH with QoS 3): the broker gives
+					// the connection up with most of the message unread. Those bytes belong to this connection and to
+					// nobody else.
+					cid := fmt.Sprintf("ws-poison-%d-%d", g, i)
+					msg, _ := mqttx.Encode(&mqttx.Packet{Type: mqttx.CONNECT, Level: 4, ProtoName: "MQTT", ClientID: cid, CleanStart: true}, mqttx.V311)
+					msg = append(msg, 0x36, 0x05, 0x00, 0x01, 'x', 0x00, 0x01)
+					ping, _ := mqttx.Encode(&mqttx.Packet{Type: mqttx.PINGREQ}, mqttx.V311)
+					for len(msg) < 3000 {
+						msg = append(msg, ping...)
+					}
+					_ = ws.Conn.SetWriteDeadline(time.Now().Add(2 * time.Second))
+					_ = ws.Conn.WriteMessage(websocket.BinaryMessage, msg)
+					time.Sleep(time.Duration(1+i%3) * time.Millisecond)
+					ws.Close()
+					atomic.AddInt64(&poisoned, 1)
 					continue
 				}
 				var first []byte
@@ -593,6 +611,7 @@ func neighbours(r *monitor.Run, b *broker.Broker, cs []Case) {
 	close(stop)
 	wg.Wait()
 	r.Count("refused_neighbour_connections", atomic.LoadInt64(&refused))
+	r.Count("neighbour_connections_given_up_with_an_unread_remainder", atomic.LoadInt64(&poisoned))
 	r.Count("neighbour_subscribers_dropped_in_a_flood", atomic.LoadInt64(&dropped))
 	r.Count("read_loops_held_after_a_packet", atomic.LoadInt64(&cnt)/3)
 }
